@@ -67,13 +67,25 @@ def is_load(prog, t, ns, crate=None):
     return True
 
 
-def loaded_field(prog, t, ns, path, crate=None):
-    """t == <ITEM ns>.load()?.a.b.c (path = ['a','b','c'])."""
+def loaded_field(prog, t, ns, path, crate=None, _again=True):
+    """t == <ITEM ns>.load()?.a.b.c (path = ['a','b','c']).  A value that went through a local
+    helper or through `ITEM.update(..)?` (which returns the stored value with some fields changed)
+    is looked through: an unchanged field of it is the loaded field."""
+    t0 = t
     for name in reversed(path):
         if t[0] != "field" or t[2] != name:
             return False
         t = t[1]
-    return t[0] == "payload" and is_load(prog, t, ns, crate)
+    if t[0] == "payload" and is_load(prog, t, ns, crate):
+        return True
+    if _again and t[0] == "payload":
+        c = t[1][1] if t[1][0] == "trybranch" else t[1]
+        if c[0] == "call" and (c[1].endswith("::update") or prog.body(c[1]) is not None or (len(c) > 3 and c[3] and c[3][2] in prog.bodies)):
+            from engine.analysis import resolve_terms
+            r = resolve_terms(prog, t0, 2)
+            if r != t0:
+                return loaded_field(prog, r, ns, path, crate, False)
+    return False
 
 
 def field_path(t):
@@ -412,7 +424,19 @@ def deadline_guard(name, is_x, is_y, reject_when):
             return True
         return None  # a comparison of the right operands with the wrong table: not this guard
 
-    g = Guard(name, boolean=boolean)
+    def subject(s_):
+        # x.checked_sub(y) is Ok exactly when x >= y: as a test it rejects iff x < y
+        if s_[0] == "call" and s_[1].endswith("::checked_sub") and len(s_[2]) == 2:
+            a, b = s_[2]
+            if is_x(a) and is_y(b):
+                seen.append(["checked_sub: >,="])
+                return set(reject_when) == {"<"}
+            if is_x(b) and is_y(a):
+                seen.append(["checked_sub: <,="])
+                return set(reject_when) == {">"}
+        return False
+
+    g = Guard(name, subject=subject, boolean=boolean)
     g.seen = seen
     return g
 
